@@ -186,7 +186,7 @@ class ByKey:
 
 
 
-ANCH = "(hasattr(%s, 'anchor') and stripped_attrs == %s.anchor.value)"
+ANCH = "(hasattr(%s, 'anchor') and " + ATTR + " == %s.anchor.value)"
 
 
 def WFA(node, parent, ref):
